@@ -30,7 +30,7 @@ def info(tier):
         "CompiledExpression.gradient output at 3 regular points vs the jet reference; non-trivial = >=2 operator "
         "nodes in total; distinct = canonical (recipes, V) hashes",
         "required_cells": [f"{fam}|{v}|m=1" for fam, _ in X.directed_families() for v in X.VRELS]
-        + [f"m={m}|{v}" for m in (2, 4) for v in X.VRELS],
+        + [f"m={m}|{v}" for m in (2, 4) for v in X.VRELS] + [f"shared-subexpressions|{v}" for v in X.VRELS],
         "assumptions": ["regular points only (margin >= 1e-2)", "jet reference validated by selftest"],
     }
 
@@ -60,7 +60,10 @@ def run_case(case, rec):
     m = len(nodes)
     fam, vrel = case["family"], case["vrel"]
     cell = f"{fam}|{vrel}|m=1" if m == 1 else f"m={m}|{vrel}"
-    rec.case({"d": decls, "n": nodes, "V": V}, nontrivial=sum(A.n_ops(n) for n in nodes) >= 2)
+    B.SHARE[0] = bool(case.get("share"))
+    if B.SHARE[0]:
+        cell = f"shared-subexpressions|{vrel}"
+    rec.case({"d": decls, "n": nodes, "V": V, "s": B.SHARE[0]}, nontrivial=sum(A.n_ops(n) for n in nodes) >= 2)
     try:
         b = B.Builder(decls)
         es = [b.S(n) for n in nodes]
@@ -193,6 +196,13 @@ def run(ctx, rec):
                 c = make_case(rng, X.D0, [node], vrel, fam)
                 if c is not None:
                     run_case(c, rec)
+                if i % 2 == 0:
+                    # rows that share sub-expression objects with each other and within themselves
+                    rows = [X.dag_variant(node, (i // 2) % 4), X.dag_variant(node, (i // 2 + 1) % 4), node][: 1 + (i // 2) % 3]
+                    c = make_case(rng, X.D0, rows, vrel, fam)
+                    if c is not None:
+                        c["share"] = True
+                        run_case(c, rec)
     # directed multi-row Jacobians: every family appears in some m=2 and m=4 list
     for k, (fam, node) in enumerate(fams):
         for m in (2, 4):
@@ -219,6 +229,15 @@ def run(ctx, rec):
             rec.events["no-regular-point-or-no-vars"] += 1
             continue
         run_case(c, rec)
+        if n % 6 == 0:
+            rows = [X.dag_variant(nodes[0], n % 4)] + nodes[1:] + [nodes[0]]
+            try:
+                c2 = make_case(rng, g.decls, rows[: rng.choice([1, 2, 4])], c["vrel"], "random")
+            except (R.ShapeError, R.OutOfModel):
+                c2 = None
+            if c2 is not None:
+                c2["share"] = True
+                run_case(c2, rec)
 
 
 def replay(w, rec):
